@@ -263,6 +263,8 @@ def run_scenario(sc, observe="all"):
                             if txn is None:
                                 kw["client"] = cls[self.spec.get("client", 0)]
                             res = tgt.place_order(o, **kw)
+                            if res is False:
+                                extra["violation_msg"] = getattr(o, "violation_msg", None)
                         elif a[0] in ("cancel", "update", "replace"):
                             o = names.get(a[1])
                             opt = (a[3] if len(a) > 3 else None) or {}
